@@ -190,7 +190,11 @@ def _run(stg, c, d, R):
     counter = [0]
 
     def newpath(ext):
+        # every other file name is re-used: the save then overwrites a file that was written (and read back) earlier in this
+        # history, possibly with another geometry
         counter[0] += 1
+        if counter[0] % 2 == 0 and ext in ('fil', 'h5'):
+            return os.path.join(d, f'again.{ext}')
         return os.path.join(d, f'f{counter[0]}.{ext}')
     base = stg.Frame(fchans=F, tchans=T, seed=c['sub'], mjd=c['mjd'], source_name=c['name'], **kw)
     base.data = marker(rng, T, F)
